@@ -402,9 +402,21 @@ def judge(case, obs):
                 v("C20", "system_flow_split_wrong", f"{method}: GHE with {n_} bh built with V_sys={vs}, m_bh={mf}; expected "
                   f"{vsys}, {vsys / n_ / 1000.0 * rho}", observed=[vs, mf])
                 break
+        # ... and so is the flow the g-functions of every candidate are computed with
+        for n_, _hs, mf in obs["gfunc_calls"]:
+            want = vsys / n_ / 1000.0 * rho
+            if abs(mf - want) > 1e-12 * want:
+                v("C20", "g_function_flow_wrong", f"{method}: g-functions of a {n_}-borehole candidate were computed with {mf} kg/s per borehole; the system flow {vsys} L/s "
+                  f"over {n_} boreholes is {want}", observed=mf, expected=want, spec="system")
+                break
     elif case.get("flow", "borehole") == "borehole":
         rho = _LAST["m"]._fluid.rho
         vb = case.get("flow_rate", 0.5)
+        for n_, _hs, mf in obs["gfunc_calls"]:
+            if abs(mf - vb / 1000.0 * rho) > 1e-12 * mf:
+                v("C20", "g_function_flow_wrong", f"{method}: g-functions of a {n_}-borehole candidate were computed with {mf} kg/s per borehole; the per-borehole flow is "
+                  f"{vb / 1000.0 * rho}", observed=mf, expected=vb / 1000.0 * rho, spec="borehole")
+                break
         for n_, vs, mf in obs["ghe_inits"]:
             if abs(vs - vb * n_) > 1e-12 * vs or abs(mf - vb / 1000.0 * rho) > 1e-12 * mf:
                 v("C20", "borehole_flow_split_wrong", f"{method}: GHE with {n_} bh built with V_sys={vs}, m_bh={mf}",
